@@ -31,8 +31,7 @@ PlaceEquiv ==
   \A era \in 0 .. 2 :
      LET ref == era * S!M + ToInt(x) IN
      /\ LPlaceDefined(x, y) <=> S!PlaceDefined(ref, ToInt(y))
-     /\ LPlaceDefined(x, y) =>
-           S!Place(ref, ToInt(y)) = LPlaceEra(era, x, y) * S!M + ToInt(y)
+     /\ S!Place(ref, ToInt(y)) = LPlaceEra(era, x, y) * S!M + ToInt(y)   \* ties included
      /\ LPlaceConstrained(era, x, y) <=> S!PlaceConstrained(ref, ToInt(y))
 \* x, y as a window, a boundary sample of third values as the timestamp
 WindowEquiv ==
